@@ -49,6 +49,16 @@ def convert_entry(entry):
         for r in coll.rules:
             for e in r.errors:
                 out["errors"].append(_err(str(r.title), e))
+        # filters applied to the loaded collection in separate apply_filters calls; under plan "each" the random
+        # module is put into the same state before every call (adversarial draw sequence: the same draw comes first)
+        if entry.get("filters_separate"):
+            import random
+            from sigma.filters import SigmaFilter
+            for fdoc in entry["filters_separate"]:
+                fobj = SigmaFilter.from_yaml(fdoc)
+                if DRIVER_PLAN["plan"] == "each":
+                    random.seed(DRIVER_PLAN["rseed"])
+                coll.apply_filters([fobj])
         # rules that failed to load are reported above and left out of the conversion (as a front end would)
         coll.rules = [r for r in coll.rules if not r.errors]
         if entry.get("validators") is not None:
@@ -101,8 +111,12 @@ def convert_entry(entry):
     return out
 
 
-def driver_main(path, rseed):
+DRIVER_PLAN = {"plan": "once", "rseed": 0}
+
+
+def driver_main(path, rseed, plan="once"):
     import random
+    DRIVER_PLAN.update(plan=plan, rseed=rseed * 1000003 + 17)
     corpus = json.load(open(path))
     w = sys.stdout
     for entry in corpus:
@@ -175,6 +189,46 @@ def _fields(det):
     return out
 
 
+# ---- instrumentation of the draws (observation + scripted adversarial draws) -------------------------------
+import random
+APPS = []        # one record per SigmaFilter.apply_on_rule that renamed detections: draws consumed, prefix chosen
+SCRIPT = []      # scripted results of the next random.choices calls (adversarial draw sequences); empty: real draws
+_DRAWS = []
+_instrumented = []
+
+
+def _instrument():
+    """random.choices is wrapped (logs every draw, serves scripted draws first); SigmaFilter.apply_on_rule is wrapped
+    to record which draws one application consumed and which prefix the new detection names carry."""
+    if _instrumented:
+        return
+    _instrumented.append(1)
+    real_choices = random.choices
+
+    def choices(population, *a, **kw):
+        r = SCRIPT.pop(0) if SCRIPT else real_choices(population, *a, **kw)
+        _DRAWS.append("".join(r))
+        return r
+    random.choices = choices
+    from sigma.filters import SigmaFilter
+    real_apply = SigmaFilter.apply_on_rule
+
+    def apply_on_rule(self, rule):
+        det = getattr(rule, "detection", None)
+        before = list(det.detections) if det is not None else []
+        n0 = len(_DRAWS)
+        res = real_apply(self, rule)
+        if det is not None:
+            new = [k for k in rule.detection.detections if k not in before]
+            own = [str(k) for k in self.filter.detections]
+            if new and own:
+                k0 = str(new[0])
+                pre = k0[:len(k0) - len(own[0]) - 1] if k0.endswith("_" + own[0]) else k0
+                APPS.append({"draws": ["_filt_" + d for d in _DRAWS[n0:]], "prefix": pre})
+        return res
+    SigmaFilter.apply_on_rule = apply_on_rule
+
+
 def site(case):
     """Evaluate one site input in this process.  Result: {"ok": text} | {"err": message}."""
     import yaml
@@ -240,26 +294,45 @@ def site(case):
                 docs += "---\n" + yaml.safe_dump({"title": "F", "logsource": {"category": "test"}, "filter": fd},
                                                  sort_keys=False)
             from sigma.collection import SigmaCollection
+            from sigma.filters import SigmaFilter
             from sigma.processing.pipeline import ProcessingPipeline
             from sigma.backends.test import TextQueryTestBackend
+            plan = case.get("_plan") or {}
+            mode = case.get("mode", "stream")
+            _instrument()
+            del APPS[:]
+            SCRIPT[:] = [list(x) for x in plan.get("cond_script", [])]
             p = ProcessingPipeline.from_yaml(pl) if pl else None
             b = TextQueryTestBackend(p)
-            coll = SigmaCollection.from_yaml(docs)
+            SCRIPT[:] = [list(x) for x in plan.get("script", [])]
+            if mode == "stream":            # filters are documents of the rule stream
+                coll = SigmaCollection.from_yaml(docs)
+            else:
+                parts = docs.split("---\n")
+                coll = SigmaCollection.from_yaml(parts[0])
+                fobjs = [SigmaFilter.from_yaml(d) for d in parts[1:]]
+                if mode == "one_call":
+                    if plan.get("reseed") is not None:
+                        random.seed(plan["reseed"])
+                    coll.apply_filters(fobjs)
+                else:                       # one apply_filters call per filter
+                    for fo in fobjs:
+                        if plan.get("reseed") is not None:
+                            random.seed(plan["reseed"])     # the random module in the same state before each application
+                        coll.apply_filters([fo])
+            SCRIPT[:] = []
             cnames = [it.transformation.name for it in p.items] if p else []
-            fnames = []
-            for kname in coll.rules[0].detection.detections:
-                m = ID_RE.match(str(kname))
-                if m and m.group(0) not in fnames:
-                    fnames.append(m.group(0))
+            fnames = [a["prefix"] for a in APPS]
+            fdraws = [a["draws"] for a in APPS]
             try:
                 q = b.convert(coll)
             except BaseException as e:  # noqa
                 m = re.fullmatch(r"Detection '(.*)' not defined in detections", str(e.args[0]) if e.args else "")
                 if m is None:
                     raise
-                return {"undef": m.group(1), "cnames": cnames, "fnames": fnames}
+                return {"undef": m.group(1), "cnames": cnames, "fnames": fnames, "fdraws": fdraws}
             tree = _tree(coll.rules[0].detection.parsed_condition[0].parsed)
-            return {"ok": q[0] if q else "", "tree": tree, "cnames": cnames, "fnames": fnames}
+            return {"ok": q[0] if q else "", "tree": tree, "cnames": cnames, "fnames": fnames, "fdraws": fdraws}
         if k == "tracking":
             from sigma.processing.tracking import FieldMappingTracking
             t = FieldMappingTracking()
@@ -302,7 +375,10 @@ def worker_main():
             continue
         req = json.loads(line)
         random.seed(req["rseed"])
-        sys.stdout.write("W " + json.dumps(site(req["case"])) + "\n")
+        case = req["case"]
+        if case.get("plans"):
+            case = dict(case, _plan=case["plans"][req["n"] % len(case["plans"])])
+        sys.stdout.write("W " + json.dumps(site(case)) + "\n")
         sys.stdout.flush()
 
 
@@ -325,7 +401,7 @@ def run_site(case):
     res = []
     ws = _workers()
     for n, (hs, p) in enumerate(ws):
-        p.stdin.write(json.dumps({"rseed": case.get("rseed", 0) * 7 + n, "case": case}) + "\n")
+        p.stdin.write(json.dumps({"rseed": case.get("rseed", 0) * 7 + n, "n": n, "case": case}) + "\n")
         p.stdin.flush()
     for hs, p in ws:
         while True:
@@ -340,6 +416,6 @@ def run_site(case):
 
 if __name__ == "__main__":
     if sys.argv[1] == "--driver":
-        driver_main(sys.argv[2], int(sys.argv[3]))
+        driver_main(sys.argv[2], int(sys.argv[3]), sys.argv[4] if len(sys.argv) > 4 else "once")
     elif sys.argv[1] == "--worker":
         worker_main()
